@@ -1,5 +1,7 @@
 package drivers
 
+// Plonk twin of artifacts.go (SaveVerifierCircuitPlonk / LoadPlonkVerifierKey / LoadPlonkProverData), generated from it by renaming.
+
 // artifacts: replay of CompileArtifacts.tla behaviours (save / crash / load histories) on a real directory with the repository's
 // SaveVerifierCircuitGroth, LoadGroth16VerifierKey and LoadGroth16ProverData.  Beyond the listed properties: mismatches are
 // reported under the signature prefix "beyond/" and are turned into leads by the check, never into a violation of a listed property.
@@ -13,106 +15,64 @@ import (
 	"path/filepath"
 
 	"github.com/consensys/gnark-crypto/ecc"
-	"github.com/consensys/gnark/backend/groth16"
+	"github.com/consensys/gnark/backend/plonk"
 	"github.com/consensys/gnark/constraint"
 	"github.com/consensys/gnark/frontend"
-	"github.com/consensys/gnark/frontend/cs/r1cs"
+	"github.com/consensys/gnark/frontend/cs/scs"
+	"github.com/consensys/gnark/test"
 	"github.com/wormhole-foundation/example-near-light-client/verifier"
 	"verifharness/drv"
 )
 
-type artEntry struct {
-	Op   string   `json:"op"`
-	Gen  int      `json:"gen"`
-	File int      `json:"file"`
-	Sub  string   `json:"sub"`
-	Disk []string `json:"disk"`
-}
+func init() { drv.Register("artifacts_plonk", artifactsPlonk) }
 
-type artReq struct {
-	Scheme string `json:"scheme"` // groth16 (default) | plonk
-	Cases  string `json:"cases"`  // file written by TLC: list of histories
-	From   int    `json:"from"`
-	Step   int    `json:"step"`
-	Shard  int    `json:"shard"`
-}
-
-func init() { drv.Register("artifacts", artifacts) }
-
-type genCircuit struct {
-	X frontend.Variable
-	Y frontend.Variable `gnark:",public"`
-	N int               `gnark:"-"`
-}
-
-func (c *genCircuit) Define(api frontend.API) error {
-	v := c.X
-	for i := 0; i < c.N; i++ {
-		v = api.Mul(v, c.X)
-	}
-	api.AssertIsEqual(v, c.Y)
-	return nil
-}
-
-type artGen struct {
+type artGenP struct {
 	cs  constraint.ConstraintSystem
-	pk  groth16.ProvingKey
-	vk  groth16.VerifyingKey
+	pk  plonk.ProvingKey
+	vk  plonk.VerifyingKey
 	ref [4][]byte // the bytes a completed save of this generation leaves in the four files
 }
 
-type crashSignal struct{}
-
 // crashing serialisers: the object writes `frac` of its real serialisation and then the process "dies" (panic)
-type crashCS struct {
+type crashCSP struct {
 	constraint.ConstraintSystem
 	frac int // 0 nothing, 1 half, 2 everything
 }
 
-func cut(b []byte, frac int) []byte {
-	switch frac {
-	case 0:
-		return nil
-	case 1:
-		return b[:len(b)/2]
-	}
-	return b
-}
-
-func (c crashCS) WriteTo(w io.Writer) (int64, error) {
+func (c crashCSP) WriteTo(w io.Writer) (int64, error) {
 	var buf bytes.Buffer
 	c.ConstraintSystem.WriteTo(&buf)
 	w.Write(cut(buf.Bytes(), c.frac))
 	panic(crashSignal{})
 }
 
-type crashPK struct {
-	groth16.ProvingKey
+type crashPKP struct {
+	plonk.ProvingKey
 	frac int
 }
 
-func (c crashPK) WriteRawTo(w io.Writer) (int64, error) {
+func (c crashPKP) WriteRawTo(w io.Writer) (int64, error) {
 	var buf bytes.Buffer
 	c.ProvingKey.WriteRawTo(&buf)
 	w.Write(cut(buf.Bytes(), c.frac))
 	panic(crashSignal{})
 }
 
-type crashVK struct {
-	groth16.VerifyingKey
+type crashVKP struct {
+	plonk.VerifyingKey
 	frac int
 }
 
-func (c crashVK) WriteRawTo(w io.Writer) (int64, error) {
+func (c crashVKP) WriteRawTo(w io.Writer) (int64, error) {
 	var buf bytes.Buffer
 	c.VerifyingKey.WriteRawTo(&buf)
 	w.Write(cut(buf.Bytes(), c.frac))
 	panic(crashSignal{})
 }
 
-var artFiles = [4]string{"r1cs.bin", "pk.bin", "vk.bin", "GrothVerifier.sol"}
+var artFilesP = [4]string{"r1cs.bin", "pk.bin", "vk.bin", "PlonkVerifier.sol"}
 
-func artifacts(raw json.RawMessage, resp *drv.Response) error {
+func artifactsPlonk(raw json.RawMessage, resp *drv.Response) error {
 	var req artReq
 	if err := json.Unmarshal(raw, &req); err != nil {
 		return err
@@ -129,30 +89,34 @@ func artifacts(raw json.RawMessage, resp *drv.Response) error {
 		req.Step = 1
 	}
 	// generations: tiny circuits with g+1 multiplications, honest Groth16 setup each
-	gens := map[int]*artGen{}
-	mk := func(g int) (*artGen, error) {
+	gens := map[int]*artGenP{}
+	mk := func(g int) (*artGenP, error) {
 		if x, ok := gens[g]; ok {
 			return x, nil
 		}
-		cs, err := frontend.Compile(ecc.BN254.ScalarField(), r1cs.NewBuilder, &genCircuit{N: g + 1})
+		cs, err := frontend.Compile(ecc.BN254.ScalarField(), scs.NewBuilder, &genCircuit{N: g + 1})
 		if err != nil {
 			return nil, err
 		}
-		pk, vk, err := groth16.Setup(cs)
+		srs, err := test.NewKZGSRS(cs)
 		if err != nil {
 			return nil, err
 		}
-		a := &artGen{cs: cs, pk: pk, vk: vk}
+		pk, vk, err := plonk.Setup(cs, srs)
+		if err != nil {
+			return nil, err
+		}
+		a := &artGenP{cs: cs, pk: pk, vk: vk}
 		// reference bytes: one complete real save into a scratch directory
-		d, err := os.MkdirTemp("", "verif-art-ref")
+		d, err := os.MkdirTemp("", "verif-artp-ref")
 		if err != nil {
 			return nil, err
 		}
 		defer os.RemoveAll(d)
-		if err := verifier.SaveVerifierCircuitGroth(d, cs, pk, vk); err != nil {
+		if err := verifier.SaveVerifierCircuitPlonk(d, cs, pk, vk); err != nil {
 			return nil, fmt.Errorf("reference save failed: %v", err)
 		}
-		for i, f := range artFiles {
+		for i, f := range artFilesP {
 			a.ref[i], err = os.ReadFile(filepath.Join(d, f))
 			if err != nil {
 				return nil, err
@@ -166,7 +130,7 @@ func artifacts(raw json.RawMessage, resp *drv.Response) error {
 	}
 	snapshot := func(dir string) ([]string, error) {
 		out := make([]string, 4)
-		for i, f := range artFiles {
+		for i, f := range artFilesP {
 			b, err := os.ReadFile(filepath.Join(dir, f))
 			if err != nil {
 				out[i] = "0absent"
@@ -205,7 +169,7 @@ func artifacts(raw json.RawMessage, resp *drv.Response) error {
 		}
 		return true
 	}
-	save := func(dir string, a *artGen, file int, sub string) (realised bool, err error) {
+	save := func(dir string, a *artGenP, file int, sub string) (realised bool, err error) {
 		realised = !(file == 4 && sub != "create")
 		defer func() {
 			if r := recover(); r != nil {
@@ -215,8 +179,8 @@ func artifacts(raw json.RawMessage, resp *drv.Response) error {
 			}
 		}()
 		var cs constraint.ConstraintSystem = a.cs
-		var pk groth16.ProvingKey = a.pk
-		var vk groth16.VerifyingKey = a.vk
+		var pk plonk.ProvingKey = a.pk
+		var vk plonk.VerifyingKey = a.vk
 		frac := map[string]int{"write": 0, "mid": 1}
 		switch {
 		case file == 0: // no crash
@@ -225,24 +189,24 @@ func artifacts(raw json.RawMessage, resp *drv.Response) error {
 		case sub == "create": // previous file complete, the next not yet created
 			switch file {
 			case 2:
-				cs = crashCS{a.cs, 2}
+				cs = crashCSP{a.cs, 2}
 			case 3:
-				pk = crashPK{a.pk, 2}
+				pk = crashPKP{a.pk, 2}
 			case 4:
-				vk = crashVK{a.vk, 2}
+				vk = crashVKP{a.vk, 2}
 			}
 		case file == 1:
-			cs = crashCS{a.cs, frac[sub]}
+			cs = crashCSP{a.cs, frac[sub]}
 		case file == 2:
-			pk = crashPK{a.pk, frac[sub]}
+			pk = crashPKP{a.pk, frac[sub]}
 		case file == 3:
-			vk = crashVK{a.vk, frac[sub]}
+			vk = crashVKP{a.vk, frac[sub]}
 		case file == 4:
 			// the Solidity file is written by one os.Create + one Write with no call-back: an interruption there cannot be produced
 			// through the code's own write path; no loader reads that file, so the case is replayed as "died before creating it"
-			vk = crashVK{a.vk, 2}
+			vk = crashVKP{a.vk, 2}
 		}
-		e := verifier.SaveVerifierCircuitGroth(dir, cs, pk, vk)
+		e := verifier.SaveVerifierCircuitPlonk(dir, cs, pk, vk)
 		return realised, e
 	}
 	loadVK := func(dir string) (ok bool, g int, note string) {
@@ -251,7 +215,7 @@ func artifacts(raw json.RawMessage, resp *drv.Response) error {
 				ok, g, note = false, 0, fmt.Sprintf("panic: %v", r)
 			}
 		}()
-		vk, err := verifier.LoadGroth16VerifierKey(dir)
+		vk, err := verifier.LoadPlonkVerifierKey(dir)
 		if err != nil {
 			return false, 0, firstLine(err)
 		}
@@ -270,7 +234,7 @@ func artifacts(raw json.RawMessage, resp *drv.Response) error {
 				ok, g1, g2, note = false, 0, 0, fmt.Sprintf("panic: %v", r)
 			}
 		}()
-		cs, pk, err := verifier.LoadGroth16ProverData(dir)
+		cs, pk, err := verifier.LoadPlonkProverData(dir)
 		if err != nil {
 			return false, 0, 0, firstLine(err)
 		}
@@ -295,14 +259,14 @@ func artifacts(raw json.RawMessage, resp *drv.Response) error {
 	}
 	for ci := req.From; ci < len(cases); ci += req.Step {
 		h := cases[ci]
-		dir, err := os.MkdirTemp("", "verif-art")
+		dir, err := os.MkdirTemp("", "verif-artp")
 		if err != nil {
 			return err
 		}
 		key, _ := json.Marshal(h)
 		realisedAll := true
 		bad := func(kind, detail string, i int) {
-			resp.Violate("beyond/artifacts/"+kind, fmt.Sprintf("history %d step %d (%s gen=%d file=%d sub=%s): %s", ci, i, h[i].Op, h[i].Gen, h[i].File, h[i].Sub, detail),
+			resp.Violate("beyond/artifacts-plonk/"+kind, fmt.Sprintf("history %d step %d (%s gen=%d file=%d sub=%s): %s", ci, i, h[i].Op, h[i].Gen, h[i].File, h[i].Sub, detail),
 				map[string]any{"history": h})
 		}
 		for i := 0; i < len(h); i++ {
